@@ -1,26 +1,30 @@
 #!/usr/bin/env bash
 # usage: tools/try_mutant.sh <patch.diff> [tier] [props...]
-# Applies a seeded change to /repo, runs the given checks (default: all, quick), and undoes it straight afterwards.
+# Evaluates a seeded change WITHOUT touching /repo: a scratch worktree of /repo's HEAD gets the patch, the
+# simulator is built against it into a scratch binary, the given checks run with a scratch verif directory
+# (known findings + witnesses copied), and everything is removed again. Logs: out/mutant-<name>/.
 set -u
 cd "$(dirname "$0")/.."
 patch="$(realpath "$1")"; shift
 tier="${1:-quick}"; shift || true
 props=("$@")
-if ! git -C /repo diff --quiet; then echo "/repo has uncommitted changes; refusing" >&2; exit 2; fi
-git -C /repo apply "$patch" || { echo "patch does not apply" >&2; exit 2; }
-trap 'git -C /repo checkout -- . ; git -C /repo clean -fdq -- x custom app 2>/dev/null' EXIT
-out="out/mutant-$(basename "$(dirname "$patch")")"
-mkdir -p "$out"
-# evidence and replay files of mutant runs go to a scratch verif dir, never into /verif/evidence
-MV="$(mktemp -d /tmp/mutverif_XXXXXX)"; cp known_findings.json "$MV"/; cp -r findings "$MV"/
-./check build || exit 2
+export GOFLAGS=-mod=mod GOPROXY=off GOSUMDB=off GOTOOLCHAIN=local CGO_ENABLED=0
+name="$(basename "$(dirname "$patch")")-$(basename "$patch" .diff)"
+out="out/mutant-$name"; mkdir -p "$out/replays"
+WT=$(mktemp -d /tmp/mwt_XXXXXX); SM=$(mktemp -d /tmp/msim_XXXXXX); MV=$(mktemp -d /tmp/mverif_XXXXXX)
+cleanup() { git -C /repo worktree remove --force "$WT" 2>/dev/null; rm -rf "$SM" "$MV" "$WT"; }
+trap cleanup EXIT
+git -C /repo worktree add -q --detach "$WT" HEAD || exit 2
+git -C "$WT" apply "$patch" || { echo "patch does not apply" >&2; exit 2; }
+cp sim/*.go "$SM"/
+( cd "$SM" && { sed -e 's#^module .*#module verifsim#' "$WT/go.mod"; echo; echo "require github.com/terra-money/alliance v0.0.0"; echo "replace github.com/terra-money/alliance => $WT"; } > go.mod && cp "$WT/go.sum" . && go build -o "$SM/verif-sim" . ) > "$out/build.log" 2>&1 || { echo "BUILD FAILED"; tail -5 "$out/build.log"; exit 2; }
+cp known_findings.json "$MV"/; cp -r findings "$MV"/
 [ ${#props[@]} -eq 0 ] && props=(C01 C02 C03 C04 C05 C06 C07 C08 C09 C10 C11 C12 C13 C14 C15 C16 C17 C18 C19 C20)
 caught=()
 for p in "${props[@]}"; do
-  out/bin/verif-sim check -prop "$p" -tier "$tier" -verif "$MV" > "$out/$p.log" 2>&1; rc=$?
-  line=$(grep -v '^KNOWN' "$out/$p.log" | tail -1 | cut -c1-160)
+  VERIF_REPO="$WT" "$SM/verif-sim" check -prop "$p" -tier "$tier" -verif "$MV" > "$out/$p.log" 2>&1; rc=$?
+  line=$(grep -v '^KNOWN' "$out/$p.log" | tail -1 | cut -c1-150)
   echo "$p exit=$rc $line"
-  if [ $rc -eq 1 ]; then caught+=("$p"); grep '^violation:' "$out/$p.log" | head -3 | cut -c1-260; fi
+  if [ $rc -eq 1 ]; then caught+=("$p"); grep '^violation:' "$out/$p.log" | head -2 | cut -c1-260; cp "$MV"/out/"$p"/min-*.json "$out/replays/" 2>/dev/null; fi
 done
 echo "CAUGHT BY: ${caught[*]:-none}"
-mkdir -p "$out/replays"; cp "$MV"/out/*/min-*.json "$out/replays/" 2>/dev/null; rm -rf "$MV"
